@@ -207,8 +207,15 @@ def run_case(case: dict) -> Result:
     if not res.violations:
         for label, obj in (('edited-copy', cp), ('edited-original', m)):
             try:
-                if obj.token_store is None or O.invariants(obj, whole_store=(obj is cp)):
-                    continue   # an edit broke the tree: C05's subject
+                if obj.token_store is None:
+                    continue
+                o_now = O.Order(obj.token_store)
+                if o_now.ord(obj.first_token) is None and o_now.ord(obj.last_token) is None:
+                    continue   # the edits removed this very model from its document: a stale reference, not a model of the document any more
+                inv = O.invariants(obj, whole_store=(obj is cp))
+                if {k for k, _ in inv} - {'leaf-not-in-store', 'not-in-store'}:
+                    continue   # an edit broke the tree in a way a copy would only repeat (an unowned token from a donor ...): C05's subject
+                # (tokens of the model that an edit dropped from the store make the copy fail: reported here too, it is a reachable state)
                 cp2 = copy.deepcopy(obj)
             except Exception as e:  # noqa: BLE001
                 res.bad(f'copy-after-edit-raised:{label}:{type(obj).__name__}:{type(e).__name__}', f'deepcopy of the {label} {type(obj).__name__} raised {e!r} after {case.get("ops")} / {case.get("ops2")}')
